@@ -328,22 +328,33 @@ def emit_lean(ex, path):
     open(path, 'w').write(txt)
     return True
 
-def emit_cppdrv(ex, path):
-    """dispatch for the `_XRL_FUNCTION` wrappers: one call per instantiated overload, argument types from the C prototype"""
-    body = []; done = set()
+HAND_DISPATCH = {'SymbolToAtomicNumber'}      # served by hand-written code in harness/cppdrv.cpp
+
+def generic_wrappers(ex):
+    """wrappers the generated dispatch serves: every `_XRL_FUNCTION` instantiation, and every hand-written free function
+    of namespace xrlpp that carries the name of a C function with int/double/string arguments (so that a template
+    replaced by an explicit wrapper is still exercised)"""
+    out = []; done = set()
     for w in ex.wrappers:
-        if w['kind'] != 'inst' or w['name'] in done: continue
-        done.add(w['name'])
-        p = ex.pnames[w['callee']] if w['callee'] in ex.pnames else None
+        if w['kind'] not in ('inst', 'plain') or w['scope'] != '' or w['name'] in done or w['name'] in HAND_DISPATCH: continue
         pw = ex.pnames.get(w['name'])
-        if pw is None: continue
+        if pw is None or not xapi.is_simple(pw): continue
+        if any(t not in ('int', 'double', 'str') for t in w['params']): continue
+        done.add(w['name']); out.append((w, pw))
+    return out
+
+def emit_cppdrv(ex, path):
+    """one call per generic wrapper; argument values are parsed according to the *wrapper's* parameter types"""
+    body = []
+    for w, pw in generic_wrappers(ex):
         cd = []; ca = []
-        for k, (n, t) in enumerate(pw['params'][:-1]):
+        for k, t in enumerate(w['params']):
             if t == 'int': cd.append('int a%d = atoi(tok[%d]);' % (k, k + 1))
             elif t == 'double': cd.append('double a%d = pd(tok[%d]);' % (k, k + 1))
             else: cd.append('std::string a%d = ps(tok[%d]);' % (k, k + 1))
             ca.append('a%d' % k)
-        body.append('  if (!strcmp(tok[0], "%s") && nt == %d) { %s CALL(pr_d(xrlpp::%s(%s))); return 1; }' % (w['name'], len(pw['params']) + 1, ' '.join(cd), w['name'], ', '.join(ca)))
+        pr = 'pr_d' if pw['ret'] == 'double' else 'pr_i'
+        body.append('  if (!strcmp(tok[0], "%s") && nt == %d) { %s CALL(%s(xrlpp::%s(%s))); return 1; }' % (w['name'], len(w['params']) + 2, ' '.join(cd), pr, w['name'], ', '.join(ca)))
     with open(path, 'w') as f:
         f.write('/* GENERATED by tools/extract_cpp.py */\nstatic int dispatch_gen(char **tok, int nt) {\n' + '\n'.join(body) + '\n  return 0;\n}\n')
 
@@ -359,7 +370,7 @@ def main():
     emit_lean(ex, os.path.join(gen, 'Tables.lean'))
     emit_cppdrv(ex, os.path.join(aux, 'cppdrv_gen.inc'))
     xapi.gen_c_driver(ex.protos, os.path.join(aux, 'xdrv_gen.inc'))
-    json.dump(dict(protos=ex.protos, wrappers=ex.wrappers, pe=ex.pe, unclassified=ex.unclassified), open(os.path.join(aux, 'cpp_tables.json'), 'w'), indent=1)
+    json.dump(dict(protos=ex.protos, wrappers=ex.wrappers, pe=ex.pe, unclassified=ex.unclassified, generic=[w['name'] for w, _ in generic_wrappers(ex)]), open(os.path.join(aux, 'cpp_tables.json'), 'w'), indent=1)
     print('extract_cpp: %d C prototypes, %d wrapper entries, pe=%s' % (len(ex.protos), len(ex.wrappers), ex.pe), file=sys.stderr)
     sys.exit(3 if ex.unclassified else 0)
 
